@@ -314,10 +314,18 @@ double one_normest_product(const gsl_matrix_complex *A,const gsl_matrix_complex 
   return normest;
 }
   
+//gsl_rng_env_setup() writes library-wide GSL variables, so it must not be run by several
+//threads at once; the function-local static below is initialised exactly once (thread-safely
+//since C++11) and every per-thread generator then only reads what it set up.
+const gsl_rng_type* default_rng_type(){
+  static const gsl_rng_type* const T=gsl_rng_env_setup();
+  return T;
+}
+
 struct gsl_rng_holder{
   const gsl_rng_type* T;
   gsl_rng* r;
-  gsl_rng_holder():T(gsl_rng_env_setup()),r(gsl_rng_alloc(T)){}
+  gsl_rng_holder():T(default_rng_type()),r(gsl_rng_alloc(T)){}
   ~gsl_rng_holder(){ gsl_rng_free(r); }
   operator gsl_rng*(){ return r; }
 };
